@@ -132,7 +132,7 @@ def build_class(case, idx, seed, tmp):
     if meta_lines:
         src += '    class _(EnvWizard.Meta):\n' + ''.join(f'        {m}\n' for m in meta_lines)
     src += ''.join(f'    {b}\n' for b in body) or ('' if meta_lines else '    pass\n')
-    exec(src, ns)
+    exec(compile(src, '<genenv>', 'exec', dont_inherit=True), ns)     # not under this module's __future__ flags
     return ns[cname]
 
 
